@@ -1,6 +1,7 @@
 package base
 
 import (
+	"cmp"
 	"slices"
 )
 
@@ -53,6 +54,34 @@ var MethodCallPoint = make(map[string][]CallPoint)
 var MethodCalleePoint = make(map[string][]CalleePoint)
 var SpecialCodeComments = []SpecialCodeComment{}
 
+// compareSigTie orders signatures that agree on method, class and frame (a class
+// method and an instance method of the same name, overloads), so that the sorted
+// result never depends on map iteration order.
+func compareSigTie(a, b Sig) int {
+	if a.IsStatic != b.IsStatic {
+		if !a.IsStatic {
+			return -1
+		}
+		return 1
+	}
+	if a.IsPrivate != b.IsPrivate {
+		if !a.IsPrivate {
+			return -1
+		}
+		return 1
+	}
+	if c := cmp.Compare(a.Detail, b.Detail); c != 0 {
+		return c
+	}
+	if c := cmp.Compare(a.FileName, b.FileName); c != 0 {
+		return c
+	}
+	if c := cmp.Compare(a.Row, b.Row); c != 0 {
+		return c
+	}
+	return cmp.Compare(a.Document, b.Document)
+}
+
 func GetSortedTSignatures() []Sig {
 	sortedSignatures := make([]Sig, 0, len(TSignatures))
 
@@ -79,7 +108,7 @@ func GetSortedTSignatures() []Sig {
 		if a.Frame > b.Frame {
 			return 1
 		}
-		return 0
+		return compareSigTie(a, b)
 	})
 
 	return sortedSignatures
@@ -111,7 +140,7 @@ func GetSortedTSignaturesByClass() []Sig {
 		if a.Frame > b.Frame {
 			return 1
 		}
-		return 0
+		return compareSigTie(a, b)
 	})
 
 	return sortedSignatures
